@@ -101,13 +101,19 @@ func (e *EventFilter) SetRangeEndBlockByHash(
 	return e.SetRangeEndBlockByNumber(filterRange, blockNum)
 }
 
-// SetRangeEndBlockToL1Head sets an end of the block range to latest `l1_accepted` block
+// SetRangeEndBlockToL1Head sets an end of the block range to latest `l1_accepted` block.
+// The L1 head can be ahead of the local chain during sync: like every other reader of the
+// `l1_accepted` tag, the range end is bounded by the chain height.
 func (e *EventFilter) SetRangeEndBlockToL1Head(filterRange EventFilterRange) error {
 	l1Head, err := core.GetL1Head(e.database)
 	if err != nil {
 		return err
 	}
-	return e.SetRangeEndBlockByNumber(filterRange, l1Head.BlockNumber)
+	height, err := core.GetChainHeight(e.database)
+	if err != nil {
+		return err
+	}
+	return e.SetRangeEndBlockByNumber(filterRange, min(l1Head.BlockNumber, height))
 }
 
 // Close closes the underlying database transaction that provides the blockchain snapshot
